@@ -1,7 +1,7 @@
 \* conformance of recorded calls on real nodes with Node.tla (universes widened to everything the drivers use)
 CONSTANTS
-    RawU = {"a", ".wh.a", ".wh..wh..opq", ".prefetch.landmark", ".no.prefetch.landmark", "stargz.index.json", ".wh..wh.foo", "l"}
-    LookupU = {"a", ".wh.a", "foo", ".wh.foo", ".wh..wh.foo", ".wh..opq", ".wh..wh..opq", ".prefetch.landmark", ".no.prefetch.landmark", "stargz.index.json", "zz", ".stargz-snapshotter", "l"}
+    RawU = {"a", ".wh.a", ".wh..wh..opq", ".prefetch.landmark", ".no.prefetch.landmark", "stargz.index.json", ".wh..wh.foo", "l", "c13", "c00"}
+    LookupU = {"a", ".wh.a", "foo", ".wh.foo", ".wh..wh.foo", ".wh..opq", ".wh..wh..opq", ".prefetch.landmark", ".no.prefetch.landmark", "stargz.index.json", "zz", ".stargz-snapshotter", "l", "c13", "c00"}
     MaxChildren = 100
     ExtraContents = {}
     Modes = {"trusted", "user", "all"}
